@@ -224,6 +224,12 @@ func runSlotBeforeBcast(c *core.Ctx) {
 		if sendsToChildren(sc) {
 			bcast = call
 		}
+		// the fan-out loop written out in place: the send helper is handed a child's channel
+		for _, a := range call.Call.Args {
+			if strings.Contains(an.PathOf(a), "recv.recvs") && isClientMsgChan(a.Type()) {
+				bcast = call
+			}
+		}
 	}
 	good := alloc != nil && bcast != nil && an.InstrDominates(alloc, bcast)
 	detail := "slot allocation or broadcast call not found"
@@ -475,8 +481,11 @@ func runMergeGuards(c *core.Ctx) {
 	// (d) a child that already sent EOSE is not merged
 	{
 		okIs := an.AllHave(fwd, func(g an.Cond) bool {
-			call := isCallTo(g.V, "ReqState).IsEOSE")
-			return call != nil && !g.True && an.PathOf(call.Call.Args[1]) == sub
+			if call := isCallTo(g.V, "ReqState).IsEOSE"); call != nil {
+				return !g.True && an.PathOf(call.Call.Args[1]) == sub
+			}
+			// the flag read in place: this child's entry of the subscription's EOSE flags is false
+			return !g.True && an.PathOf(g.V) == "recv.eose["+sub+"][*]"
 		})
 		c.Check(okIs, nil, fname(c, fn), "child-not-done", P.Pos(fn.Pos()), "stored events of a child that already sent its EOSE are not merged", "events of a child that already sent EOSE are merged before the overall EOSE")
 	}
